@@ -6,11 +6,15 @@ Three oracle families, all evaluated against the real code of the repository und
      kinds (with / without `line`, `column`; None, out-of-range, non-int values; Lark exceptions; real parser exceptions; plain
      Exception) and arbitrary contents it returns a str and never raises.
  (b) error path end-to-end: a config directory (config.yml + ONE .co file with arbitrary valid-Unicode text) is loaded with
-     RailsConfig.from_path in a forked child under a hard timeout; the load either returns or raises ColangParsingError whose
-     message names the file - never another exception type, never a hang, never a dead process.
+     RailsConfig.from_path in a forked child under a CPU-time limit (plus a wall-clock limit after which the child is killed);
+     the load either returns or raises ColangParsingError whose message names the file - never another exception type, never
+     a hang, never a dead process.  Failures are grouped into classes (exception type + message skeleton) and each class is
+     reported once, with a minimised file content.
  (c) layout invariance: for valid programs (shipped .co files of both versions + generated ones) adding blank lines (empty or
      spaces/tabs only), trailing whitespace (spaces and tabs), end-of-line `# comments` (2.x only) or uniformly scaling the
-     indentation never changes what parse_colang_file returns (after dropping source-mapping / position fields).
+     indentation never changes what parse_colang_file returns (after dropping source-mapping / position fields).  Every
+     failure is reduced to a single edit on a single top-level block where possible and tagged with an `edit class`
+     (kind / whitespace class / kind of line), one report per class.
 
 Lines whose line break is *not* layout are never edited: the inside of multi-line strings / docstrings, the inside of open
 brackets (2.x: the expression text is kept verbatim by the parser) and `\\` / ` or` continuation lines (1.0)."""
@@ -178,6 +182,29 @@ class _CpuLimit(BaseException):
     """raised by the CPU-time timer inside the child (BaseException: `except Exception` in the library must not swallow it)"""
 
 
+def _cpu_limited(fn, limit):
+    """run fn() in this process under a CPU-time limit (stops Python-level loops); returns ("ok", value) | ("raised", exc) | ("hang", None)"""
+    import signal
+
+    def on_timer(signum, frame):
+        raise _CpuLimit()
+
+    old = signal.signal(signal.SIGPROF, on_timer)
+    try:
+        try:
+            signal.setitimer(signal.ITIMER_PROF, limit)
+            try:
+                return ("ok", fn())
+            finally:
+                signal.setitimer(signal.ITIMER_PROF, 0)
+        except _CpuLimit:
+            return ("hang", None)
+        except Exception as ex:
+            return ("raised", ex)
+    finally:
+        signal.signal(signal.SIGPROF, old)
+
+
 def _load_config(item):
     """(runs in the child) write the config dir, load it under a CPU-time limit, classify the outcome"""
     import shutil
@@ -192,13 +219,17 @@ def _load_config(item):
         if not state["armed"]:
             return
         f = frame
-        where = None
-        while f is not None and where is None:
-            fn = f.f_code.co_filename
-            if "nemoguardrails" in fn or "lark" in fn:
+        where = group = None
+        while f is not None:
+            fn = f.f_code.co_filename.replace(os.sep, "/")
+            if where is None and ("nemoguardrails" in fn or "lark" in fn):
                 where = "%s:%s" % (os.path.basename(fn), f.f_code.co_name)
+            for g in ("colang/v1_0", "colang/v2_x"):
+                if "/" + g + "/" in fn:
+                    group = g + " parser"
             f = f.f_back
         state["where"] = where or "?"
+        state["group"] = group or "outside the Colang parsers"
         state["armed"] = False
         raise _CpuLimit()
 
@@ -226,7 +257,7 @@ def _load_config(item):
         except BaseException as ex:
             res = ("other", type(ex).__name__, str(ex)[:300])
         if state["where"] is not None:
-            res = ("hang", state["where"].split(":")[0], "no result after %.1f s of CPU time (innermost library frame: %s)" % (limit, state["where"]))
+            res = ("hang", state["group"], "no result after %.1f s of CPU time (innermost library frame: %s)" % (limit, state["where"]))
         return res
     finally:
         shutil.rmtree(d, ignore_errors=True)
@@ -249,7 +280,8 @@ def _formatter_checks(rng, tier):
         contents.append("".join(rng.choice(["a", " ", "\n", "\t", "\"", "\r", "\u00e9", "(", "#"]) for _ in range(rng.randint(0, 40))))
 
     class Obj(object):
-        pass
+        def __repr__(self):
+            return "<plain object>"
     absent = Obj()
     values = [absent, None, 0, 1, 2, 3, -1, -7, 10 ** 5, True, False, 1.0, 2.5, float("nan"), "1", "", b"1", [1], (1,), {}, Obj()]
 
@@ -338,11 +370,10 @@ def _formatter_checks(rng, tier):
                    ("1.0", "define flow a\n  if\n"), ("1.0", "define flow a\n  meta x\n"), ("1.0", "define flow a\n  $x =\n"),
                    ("1.0", "define user\n"), ("1.0", "define flow a\n  execute (\n"), ("1.0", "define flow a\n  bot \"unterminated\n")]
     for ver, src in bad_sources:
-        try:
-            parse_colang_file("x.co", src, version=ver)
+        r = _cpu_limited(lambda: parse_colang_file("x.co", src, version=ver), 5.0)
+        if r[0] != "raised":
             continue
-        except Exception as ex:
-            real = ex
+        real = r[1]
         label = "%s raised by parse_colang_file(version=%r, content=%r)" % (type(real).__name__, ver, src)
         for content in [src] + contents:
             if check(real, content, label) != "skip":
@@ -471,7 +502,7 @@ def _shrink_lines(run, content, same, budget):
 
 def _error_path_checks(rng, tier, shipped, is_v2):
     quick = tier != "thorough"
-    first_limit, next_limit, max_hangs = (4.0, 1.0, 8) if quick else (10.0, 2.0, 40)
+    first_limit, next_limit, max_hangs = (4.0, 1.0, 8) if quick else (10.0, 1.0, 100)
 
     def sigof(res):
         return (res[0], res[1], re.sub(r"[0-9]+|'[^']*'|`[^`]*`|\"[^\"]*\"|/\S+", "", res[2] if res[0] != "hang" else "")[:40])
@@ -710,9 +741,15 @@ def _variants(rng, text, ver, states, quick):
     yield "trailing spaces on every line", [("trail", i, " " * rng.randint(1, 6)) for i in ends_ok], None
     yield "trailing tabs", [("trail", i, rng.choice(_WS_TABS)) for i in some(ends_ok, 0.4)], None
     if ver == "2.x":
+        # two kinds of lines are kept in variants of their own (so that what happens there cannot hide what happens elsewhere)
+        closing = [i for i in code_ok if lines[i].rstrip().endswith('"""') or lines[i].rstrip().endswith("'''")]
+        ellipsis = [i for i in code_ok if lines[i].lstrip().startswith("...")]
+        code_ok = [i for i in code_ok if i not in closing and i not in ellipsis]
         yield "end-of-line comments", [("comment", i, rng.choice(_COMMENTS)) for i in some(code_ok, 0.3)], None
         yield "end-of-line comment on every line", [("comment", i, rng.choice(_COMMENTS)) for i in code_ok], None
         yield "end-of-line comments after a tab", [("comment", i, rng.choice(("\t", " \t", "\t ")) + rng.choice(_COMMENTS)) for i in some(code_ok, 0.2)], None
+        yield "end-of-line comment on the lines closing a triple-quoted string", [("comment", i, rng.choice(_COMMENTS)) for i in closing], None
+        yield "end-of-line comment on the lines starting with `...`", [("comment", i, rng.choice(_COMMENTS)) for i in ellipsis], None
     if unit:
         for k in (1, 2, 3, 4, 8):
             if k != unit:
@@ -748,8 +785,8 @@ def _gen_v1(rng):
 
     def block(depth, ind):
         out = []
-        for _ in range(rng.randint(1, 4)):
-            r = rng.randrange(12 if depth < 3 else 7)
+        for _ in range(rng.randint(1, 3)):
+            r = rng.randrange(12 if depth < 2 else 7)
             p = " " * ind
             if r == 0:
                 out.append(p + "user " + rng.choice(intents))
@@ -789,7 +826,7 @@ def _gen_v1(rng):
     parts = ["define user express greeting", '  "hello"', '  "hi there"', "", "define bot express greeting", '  "Hello!"', '  "Hey."', ""]
     heads = ["define flow f%d", "define subflow sub %d", "define extension flow ext %d", "define parallel extension flow par %d", "define response flow resp %d",
              "define subflow sub %d", "define sample flow smp %d", "define parallel flow p %d", "define interruption flow intr %d", "define flow g%d"]
-    for j in range(rng.randint(2, 5)):
+    for j in range(rng.randint(2, 4)):
         parts.append(rng.choice(heads) % j)
         r = rng.randrange(4)
         if r == 0:
@@ -805,8 +842,8 @@ def _gen_v2(rng):
     """a small valid Colang 2.x program with decorators, parameters, nested if / while / when, groups, docstrings"""
     def block(depth, ind):
         out = []
-        for _ in range(rng.randint(1, 4)):
-            r = rng.randrange(12 if depth < 3 else 7)
+        for _ in range(rng.randint(1, 3)):
+            r = rng.randrange(12 if depth < 2 else 7)
             p = " " * ind
             if r == 0:
                 out.append(p + 'match UtteranceUserAction.Finished(final_transcript="%s")' % rng.choice(["hi", "a # b", "it's"]))
@@ -841,7 +878,10 @@ def _gen_v2(rng):
                     out += block(depth + 1, ind + 2)
                 if rng.random() < 0.6:
                     out.append(p + "else")
-                    out += block(depth + 1, ind + 2)
+                    body = block(depth + 1, ind + 2)
+                    if body[0].strip().startswith("if "):
+                        body.insert(0, p + "  pass")   # (`else` + newline + `if` is lexed as an else-if by the 2.x grammar: not a valid program)
+                    out += body
             elif r == 9:
                 out.append(p + "while $v%d < %d" % (rng.randint(0, 3), rng.randint(1, 5)))
                 out += block(depth + 1, ind + 2)
@@ -855,11 +895,14 @@ def _gen_v2(rng):
                     out += block(depth + 1, ind + 2)
                 if rng.random() < 0.4:
                     out.append(p + "else")
-                    out += block(depth + 1, ind + 2)
+                    body = block(depth + 1, ind + 2)
+                    if body[0].strip().startswith("if "):
+                        body.insert(0, p + "  pass")   # (`else` + newline + `if` is lexed as an else-if by the 2.x grammar: not a valid program)
+                    out += body
         return out
 
     parts = ["import core", ""] if rng.random() < 0.5 else []
-    for j in range(rng.randint(2, 5)):
+    for j in range(rng.randint(2, 4)):
         r = rng.randrange(5)
         if r == 0:
             parts.append("@meta(user_intent=True)")
@@ -900,10 +943,12 @@ def _layout_checks(rng, tier, shipped, is_v2):
         return repr(o)
 
     def parse(name, text, ver):
-        try:
-            return ("ok", norm(parse_colang_file(name, text, version=ver)))
-        except Exception as ex:
-            return ("raised", "%s: %s" % (type(ex).__name__, str(ex)[:160].replace("\n", " | ")))
+        r = _cpu_limited(lambda: norm(parse_colang_file(name, text, version=ver)), 10.0)
+        if r[0] == "ok":
+            return r
+        if r[0] == "hang":
+            return ("raised", "HANG: no result after 10 s of CPU time")
+        return ("raised", "%s: %s" % (type(r[1]).__name__, str(r[1])[:160].replace("\n", " | ")))
 
     def diff(a, b, path="result"):
         if type(a) is not type(b):
@@ -928,11 +973,9 @@ def _layout_checks(rng, tier, shipped, is_v2):
         return None if a == b or (a != a and b != b) else "%s: %s vs %s" % (path, _short(a, 120), _short(b, 120))
 
     for ver in ("1.0", "2.x"):
-        failing = []
-        signatures = []
-        presig = {}
-        n = nfail = nprog = 0
-        seen = set()
+        fams = ["blank lines", "trailing whitespace"] + (["end-of-line comments"] if ver == "2.x" else []) + ["indentation scaling"]
+        st = dict((f, dict(failing=[], signatures=[], presig={}, n=0, nfail=0, seen=set())) for f in fams)
+        nprog = 0
         progs = []
         files = [(p, c) for (p, c) in shipped if is_v2(c) == (ver == "2.x")]
         if quick:
@@ -954,8 +997,11 @@ def _layout_checks(rng, tier, shipped, is_v2):
                 if not ops and not scale:
                     continue
                 variant = _apply(text, states, ops, scale)
-                n += 1
-                seen.add(variant)
+                S = st["blank lines" if kind.startswith("blank") else "trailing whitespace" if kind.startswith("trailing") else
+                       "end-of-line comments" if kind.startswith("end-of-line") else "indentation scaling"]
+                failing, signatures, presig = S["failing"], S["signatures"], S["presig"]
+                S["n"] += 1
+                S["seen"].add(variant)
                 got = parse(name, variant, ver)
                 bad = None
                 if got[0] != "ok":
@@ -964,11 +1010,11 @@ def _layout_checks(rng, tier, shipped, is_v2):
                     bad = "parses differently: " + (diff(base[1], got[1]) or "?")
                 if not bad:
                     continue
-                nfail += 1
+                S["nfail"] += 1
                 otype = "raises " + got[1].split(":")[0] if got[0] != "ok" else "differs"
                 pre = (kind.split(" ->")[0], otype)
                 presig[pre] = presig.get(pre, 0) + 1
-                if presig[pre] > 2 or len(failing) >= 6:
+                if presig[pre] > 2 or len(failing) >= 5:
                     continue
                 # minimise: the scaling alone, else a single op (without / with the scaling) that still changes the result
                 lines = text.split("\n")
@@ -1028,14 +1074,23 @@ def _layout_checks(rng, tier, shipped, is_v2):
                                         (" [%s%s]" % (ops_txt, ", ..." if len(shown_ops) > 4 else "")) if shown_ops else "",
                                         _short(repr(shown_text), 500), _short(repr(final), 500)),
                                     outcome=bad[:500]))
-        yield dict(function="parse_colang_file[colang %s, layout invariance]" % ver, evaluations=n, distinct=len(seen), failures=nfail, failing=failing,
-                   bound="%d valid programs (shipped %s .co files%s + %d generated with subflows / modifier flows / meta / nested if-while-when) x "
-                         "up to 16 edited variants each: blank lines (empty, spaces, tabs, mixed; random 30%% of the line breaks, and after every line), "
-                         "trailing spaces / tabs (random 40%% of the lines, and every line), %suniform indentation scaling of the file's unit to each "
-                         "of 1, 2, 3, 4, 8, and one combination; line breaks inside multi-line strings, open brackets and continuation lines are "
-                         "never edited; results compared without _source / _source_mapping / source_code" % (
-                             nprog, ver, " (sample)" if quick else "", 12 if quick else 150,
-                             "end-of-line comments (random 30% of the code lines, and every code line), " if ver == "2.x" else ""))
+        what = {"blank lines": "blank lines inserted at a random 30% of the line breaks (4 variants: empty / 1-9 spaces / containing tabs / mixed), after "
+                               "every line (mixed), and as first line of the file (empty / spaces / tabs)",
+                "trailing whitespace": "1-6 trailing spaces on a random 40% of the lines and on every line; trailing tabs / tab-space mixes on a random 40% "
+                                       "of the lines",
+                "end-of-line comments": "a `# comment` (12 texts incl. quotes, keywords, unicode) appended to a random 30% of the code lines / to every "
+                                        "code line / behind a tab (20%); separately to every line that closes a triple-quoted string and to every line "
+                                        "starting with `...`",
+                "indentation scaling": "the file's indentation unit (gcd of the leading-space counts) scaled to each of 1, 2, 3, 4, 8, plus one "
+                                       "combination of a random scaling with blank lines, trailing spaces%s" % (" and comments" if ver == "2.x" else "")}
+        for f in fams:
+            S = st[f]
+            yield dict(function="parse_colang_file[colang %s, layout: %s]" % (ver, f), evaluations=S["n"], distinct=len(S["seen"]), failures=S["nfail"],
+                       failing=S["failing"],
+                       bound="%d valid programs (%s shipped %s .co files + %d generated ones with subflows / modifier flows / meta / docstrings / nested "
+                             "if-while-when) x %s; line breaks inside multi-line strings, open brackets and continuation lines are never edited; "
+                             "parse_colang_file results compared without _source / _source_mapping / source_code" % (
+                                 nprog, "a sample of the" if quick else "all", ver, 12 if quick else 150, what[f]))
 
 
 def native_checks(rng, tier):
